@@ -45,16 +45,12 @@ THEOREMS = [
     "Klong.C20.Ws.ws_null_not_delivered",
     "Klong.C20.encode_sendable",
     "Klong.C20.encode_pinned_fails",
+    "Klong.C20.parse_render",
+    "Klong.C20.json_roundtrip",
+    "Klong.C20.ws_delivers_rendered",
 ]
-try:  # text-level theorems are listed once they exist in the Lean file (see Props/C20.lean)
-    _src = (common.LEAN / "Klong" / "Props" / "C20.lean").read_text()
-    for _t in ("parse_render", "json_roundtrip", "ws_delivers_rendered"):
-        if f"theorem {_t} " in _src or f"theorem {_t}\n" in _src:
-            THEOREMS.append(f"Klong.C20.{_t}")
-except OSError:
-    pass
-
-WAIT = 8.0          # seconds a single network step may take before it counts as "no answer / lost"
+WAIT = 20.0         # seconds a single network step may take before it counts as "no answer / lost"
+#                     (only ever waited out when something IS lost; never an oracle by itself)
 
 
 def hx(s):
@@ -101,6 +97,33 @@ class Loop:
             self.loop.close()
 
 
+def we_listen_on(port):
+    """does THIS process hold a listening TCP socket on the port? (after .webc a foreign process may
+    have been handed the same ephemeral port; its answers say nothing about klongpy)"""
+    import os
+    try:
+        mine = set()
+        for fd in os.listdir("/proc/self/fd"):
+            try:
+                t = os.readlink(f"/proc/self/fd/{fd}")
+            except OSError:
+                continue
+            if t.startswith("socket:["):
+                mine.add(t[8:-1])
+        for tab in ("/proc/net/tcp", "/proc/net/tcp6"):
+            try:
+                lines = open(tab).read().split("\n")[1:]
+            except OSError:
+                continue
+            for ln in lines:
+                f = ln.split()
+                if len(f) > 9 and f[3] == "0A" and int(f[1].rsplit(":", 1)[1], 16) == port and f[9] in mine:
+                    return True
+        return False
+    except Exception:
+        return True
+
+
 def free_port():
     s = socket.socket(socket.AF_INET, socket.SOCK_STREAM)
     try:
@@ -119,7 +142,7 @@ class Real:
         self.ioloop = self.loops[0]
         self.weblog = []
         self.wslog = []
-        self.next_id = 1
+        self.next_id = 1          # corpus cases use ids >= 900000
         k = self.klong
 
         def rec(x, y):
@@ -450,6 +473,9 @@ def run_web_scenario(ctx, real, hl, drv, sc):
                         ctx.oracle_fail(key, case, exp[2], log,
                                         "Klong-side call log of this request: one entry per request to a registered "
                                         "route, by that route's handler, with exactly the parameters")
+                    if status != exp[0] and exp[0] == "none" and not log and not we_listen_on(port):
+                        ctx.bump("web:after-webc:foreign-listener-on-port")
+                        status, body = "none", ""
                     if status != exp[0]:
                         key = ("web:after-webc:still-answers" if exp[0] == "none" else
                                "web:failure:not-400" if exp[0] == "400" else
@@ -544,14 +570,19 @@ def show_reply(r):
 
 # --------------------------------------------------------------------------- websocket: receiving
 
-def same(a, b):
-    """type-aware equality of decoded JSON (1 != 1.0 != True != "1")"""
+def same(a, b, in_list=False):
+    """type-aware equality of decoded JSON (1 != 1.0 != True != "1") — except that inside a list numbers
+    are compared by value: a Klong list of numbers is one homogeneous vector (`[0 2.5]` is `[0.0 2.5]`,
+    and truth values are the numbers 1 and 0), so the numeric kind of an element is not observable"""
+    num = (bool, int, float)
+    if in_list and isinstance(a, num) and isinstance(b, num):
+        return a == b
     if isinstance(a, bool) or isinstance(b, bool):
         return isinstance(a, bool) and isinstance(b, bool) and a == b
     if isinstance(a, (int, float)) or isinstance(b, (int, float)):
         return type(a) is type(b) and a == b
     if isinstance(a, list):
-        return isinstance(b, list) and len(a) == len(b) and all(same(x, y) for x, y in zip(a, b))
+        return isinstance(b, list) and len(a) == len(b) and all(same(x, y, True) for x, y in zip(a, b))
     if isinstance(a, dict):
         return isinstance(b, dict) and list(a) == list(b) and all(same(a[k], b[k]) for k in a)
     return type(a) is type(b) and a == b
@@ -1027,6 +1058,8 @@ def run(ctx):
         "websocket frames are well-formed JSON texts and .ws.m returns (a raising handler or garbage frame ends the "
         "listen loop: modelled, ws_at_most_once_in_order, not exercised on the real client)",
         "aiohttp's router, query/form decoding and the websockets framing are trusted",
+        "inside a list, numbers are compared by value: a Klong list of numbers is one homogeneous vector, so a JSON "
+        "array [0, 2.5, true] reaches the handler as [0.0 2.5 1.0] (numeric kind of list elements is not observable)",
     ]
     ctx.partial += [
         "ws_exactly_once_in_order_partial: a bare `null` frame is not delivered to .ws.m (json.loads gives None, "
@@ -1036,6 +1069,17 @@ def run(ctx):
     real, hl, drv = _setup(ctx)
     try:
         with _quiet():
+            # corpus first: the historic failures, replayed on every run
+            cdir = common.CORPUS / "C20"
+            for cp in sorted(cdir.glob("*.json")) if cdir.exists() else []:
+                c = json.loads(cp.read_text())
+                if c["kind"] == "web":
+                    run_web_scenario(ctx, real, hl, drv, c)
+                elif c["kind"] == "ws-recv":
+                    run_ws_recv(ctx, real, hl, drv, c)
+                elif c["kind"] == "ws-send":
+                    run_ws_send(ctx, real, hl, drv, [tuple(x) for x in c["items"]])
+                ctx.bump("corpus")
             nweb = 40 if quick else 500
             for i in range(nweb):
                 sc = gen_web_scenario(ctx.rng, real, ctx.rng.randrange(5, 12 if quick else 30))
